@@ -44,7 +44,7 @@ CONSTS = {
         dict(NSyms=4, MaxLen=6, MaxUses=1, MaxGuards=0, WithODE="FALSE", MaxFeat=9, MaxAdm=6, MinEmit=4, MaxRmSet=2, SampleMod=16, Thin=1, FullDepth=0, ChainMode="TRUE"),
     ),
 }
-INVARIANTS = ["T0_Machine", "T1_FullExpr", "T2_DepSound", "T3_DepBounds", "T4_Remove", "T4b_FixedRemove", "T5_Reassign", "T6_Subs", "T7_Used", "EmitCase"]
+INVARIANTS = ["T0_Machine", "T1_FullExpr", "T2_DepSound", "T3_DepBounds", "T4_Remove", "T5_Reassign", "T6_Subs", "T7_Used", "EmitCase"]
 
 
 def _cfg(path, consts, seed):
